@@ -55,6 +55,9 @@ CHECKS = {
  "C17": dict(cat="exploration", sec="4 (C17)", technique="exhaustive pub/private masks over a pool of declaration shapes + grammar-generated modules; round-trip oracle: header XML vs parse of the expected public-interface text",
    text="For every pub/private mask (n <= 8 quick, <= 10 thorough, all rotations of a 10-shape pool) and for random modules, build_header() must equal — as canonical terms — the parse of the module restricted to its pub declarations with `pub` cleared and bodies removed, have exactly as many declarations as there are pub ones, and contain no private declaration's name.",
    note="Modules not accepted by the second-generation parser are discarded (C16)."),
+ "C18": dict(cat="exploration", sec="4 (C18)", technique="generated inputs x subcommand x option subsets run through the real binary in scratch directories, with generated recording backends; differential against the library API and the reference interpreter",
+   text="The real penne binary is invoked on valid, faulted and multi-file inputs under random subcommands, verbosity/colour/charset/out-dir options and backend selections (flag, environment, config file, PATH default, real lli); exit status, the backend that ran and what it received, emitted .pn.ll files, the Output line and pass-through of program output, presence of diagnostics, absence of ESC with --color=never and ASCII-only output with --arrows=ascii are all checked.",
+   note="The library API on the same files defines the expected compilation outcome; inputs failing without diagnostics are discarded (C02)."),
  "C19": dict(cat="exploration", sec="4 (C19)", technique="seeded generation of the unit under test (hook H1) checked against two real lexers and a reference lexer; CLI runs of `penne fuzz tokens`",
    text="fill_to_capacity_with_tokens(95, ..) is run for kb in 1..=64 under runner-drawn RNG seeds, and through the real binary; every output must be valid UTF-8 of >= 1000*kb bytes with zero lexical errors for the alpha lexer, the delta lexer and the reference lexer.",
    note="Library runs replace rand::rng() by a seeded StdRng through the cfg(penne_verif) hook; the sampled distributions are those of the code under test."),
